@@ -1031,7 +1031,7 @@ func runProperty(prop *PropSpec, tier string, seed int, verbose int, only string
 		"paths_by_end":                        agg.byEnd,
 		"queries_discharged":                  map[string]int{"total": agg.queries, "sat": agg.sat, "unsat": agg.unsat, "unknown": agg.unknown, "errors": agg.errors},
 		"solver_seconds":                      round3(agg.solverS),
-		"solver":                              "z3 5.1.0 (z3-new; one incremental process per worker); cross-checked against z3 4.8.12 and cvc5 1.0 by `gosym selfcheck`",
+		"solver":                              "z3 5.1.0 (z3-new; one incremental process per worker). tools/selfcheck.sh re-runs a fixed set of harnesses under z3 4.8.12 and cvc5 1.0 and compares verdicts (last result: evidence/selfcheck.txt); branch feasibility over small explicit domains is decided by enumeration in the engine (byte / joint domains, audited against the solver with GOSYM_AUDIT=1)",
 		"assertion_sites":                     assertList,
 		"counterexamples_found":               len(viols),
 		"counterexamples_replayed_reproduced": reproduced,
